@@ -7,10 +7,82 @@ VERIF = os.path.dirname(os.path.dirname(os.path.abspath(__file__)))
 
 # id -> (technique, level text, level note, design ref)
 CLAIMS = {
-    "C01": ("Coq proof (finite sweep lifted by forallb_forall) over the kernel translated from source; model/implementation correspondence in Coq vm_compute; exhaustive implementation oracle",
-            "Theorem C01_timezone about parse_timezone as translated from /repo on every run: every whole-minute offset in (-24h,24h) round-trips (proved, closed under the global context).",
-            "Trusted: Coq kernel + vm_compute, tools/py2gallina.py, TzName.tzname model of CPython (compared exhaustively each run).",
+    "C01": ("Coq proof by nested induction on (value, type) over a hand-written model of the generated (un)packers, composed from C02/C03 theorems; timezone codec proved over the kernel translated from source (finite sweep lifted by forallb_forall); model/implementation correspondence by vm_compute; round-trip oracle on the implementation",
+            "Theorems C01_roundtrip / C01_roundtrip_codec: for every class table, lossless type (any depth, recursive dataclasses, collections, Optional, leaves, enums, bytes, Any) and conforming value, decoding the generated packer's output returns the value with the same concrete classes; C01_timezone about parse_timezone as translated from /repo on every run. All closed under the global context.",
+            "Trusted: Coq kernel + vm_compute; TyModel.v is hand-written and tied to /repo only by the per-run vm_compute correspondence (BasicEncoder/BasicDecoder on generated schemas, values and foreign inputs); stdlib render/parse pairs are oracle functions whose law is a hypothesis (atoms_ok); tools/py2gallina.py for K1; unions, NamedTuple/TypedDict/abstract collections and leaf-typed mapping keys are decided by the implementation oracle only.",
             "4 C01"),
+    "C02": ("Coq proof by nested induction (pk (cp t) = ref_enc t on conforming values) over the hand-written generator model; vm_compute correspondence with BasicEncoder; independent reference-interpreter oracle incl. format dialects",
+            "Theorems C02_pack_ref / C02_field_packer: the generated packer with all its optimisations (copy vs comprehension, elided None tests, identity packers) equals the README-level reference encoder for every conforming value of every type of the grammar, at any depth. Closed under the global context.",
+            "Trusted: Coq kernel; TyModel.v (model of pack.py decisions) tied by per-run vm_compute correspondence; stdlib renderings are oracle tables; format dialects (orjson/msgpack/TOML native types, TOML null dropping), NamedTuple/TypedDict/ChainMap/Counter/unions/literals are decided by the independent Python reference interpreter only.",
+            "4 C02"),
+    "C03": ("Coq proof by nested induction (uk (cu t) = ref_dec t on EVERY input) over the hand-written generator model; vm_compute correspondence with BasicDecoder on encoder output and foreign inputs; independent reference-decoder + exact-class oracle",
+            "Theorems C03_unpack_ref / C03_field_unpacker: for every input (arbitrary JSON-like data), class table and type of the grammar the generated unpacker returns exactly what the reference decoder returns and fails exactly when the reference is undefined (str iterating characters, dict iterating keys, surplus tuple items and unknown keys ignored, constant positions). Closed under the global context.",
+            "Trusted: Coq kernel; TyModel.v (model of unpack.py decisions) tied by per-run vm_compute correspondence; stdlib constructors are oracle tables; conformance of results to the annotation (exact classes) and NamedTuple/TypedDict/abstract collections are decided by the implementation oracle only.",
+            "4 C03"),
+    "C05": ("Coq proof (outcome-set, first-bad-field, exact-extra-keys, no-silent-default theorems over all field lists, inputs and decoder behaviours) over a hand-written field-loop model; vm_compute correspondence; AST shape check of every generated from_dict; direct oracle with corruption stream",
+            "Proof (partial): C05_outcomes_partial, C05_first_bad, C05_extra_exact_partial, C05_no_silent_default_partial, C05_union_outcomes, C05_discr_partial (17 theorems, closed under the global context) for classes with >=1 init field, unions without a None member, discriminators on mapping inputs with hashable tags; the leak sites are _refuted theorems and known findings. Input immutability is checked by the oracle, not proved.",
+            "Trusted: Coq kernel + vm_compute; hand-written Errs.v tied by ~1.1k (quick) / 20k (thorough) correspondence cases per run plus the AST shape check of generated code; harness materialiser/encoders; Python semantics of dict.get, isinstance, bare except and except Exception modelled, not verified.",
+            "4 C05"),
+    "C11": ("Coq proof (equality of the generated union/Optional/Literal methods with the property's reference on stated domains, exact characterisation of the deviations) over a hand-written model parametric in member codecs; vm_compute correspondence; independent ref_union oracle",
+            "Proof (partial): C11_union_decode_partial (under none_safe and no_shadow), C11_union_deviation_char (nothing else deviates), C11_no_cross_coercion, C11_union_raises_iff, C11_deterministic, C11_nested_union_partial, C11_opt, C11_union_encode_partial (under wire_disjoint), C11_literal theorems; refutation witnesses for the listed deviations (known findings, two pinned by upstream tests). Closed under the global context.",
+            "Trusted: Coq kernel + vm_compute; hand-written UnionModel.v (parametric in member (un)packers and scalar coercions) tied by ~5.7k (quick) / 32k (thorough) correspondence cases per run; py_eq / kind_of models of Python == and exact type tests; harness conforms() and identity-packer classification.",
+            "4 C11"),
+    "C07": ("Coq proof over a model of the from_dict field blocks, argument assembly and dataclass __init__ binding (all layouts, key subsets, values, conversions); vm_compute correspondence on all 2^n key subsets; independent introspection oracle",
+            "Proof (partial): C07_binding_partial / C07_binding / C07_missing / C07_null_wins / C07_positional_prefix / C07_noninit_unread / C07_factory_fresh hold for every layout where the builder's view of the class equals the dataclass truth; the full statement is refuted by two known findings (override inheriting a class default; annotated attribute of a non-dataclass base). Closed under the global context.",
+            "Trusted: Coq kernel + vm_compute; hand-written Bind.v tied by 8-11k (quick) / 130k (thorough) correspondence cases per run; CPython __init__ binding and default/factory materialisation modelled, not verified; harness extraction of class facts.",
+            "4 C07"),
+    "C08": ("Coq proof by induction over field lists and instance trees of a branch-faithful model of the generated to_dict body; kernels K3 (option lookup) and K8 (flag forwarding, kwargs-vs-literal test) translated from source each run; vm_compute correspondence incl. the full 21168-point namespace lattice (thorough); independent projection oracle",
+            "Proof (partial): C08_project_partial and C08_nested_partial: over the whole option lattice x keyword arguments x unbounded field lists and instance trees the generated mapping equals the projection of the plain output, nested classes receive exactly the flags enabled on both sides (K8_forward, C08_no_leak); K3_order re-proved against the source on every run. The full statements are refuted exactly at three corners (known findings D14, D8b, NaN default under omit_default). Closed under the global context.",
+            "Trusted: Coq kernel + vm_compute (+ coqchk in thorough); py2gallina + the K8 plugin's abstractions; hand models OptProj/OptNested tied by ~1.9k quick / 39k thorough cases; harness shape classification and twin generator; model of Python ==.",
+            "4 C08"),
+    "C09": ("Coq proof (reference keymodel = model of the generated from_dict built on three kernels translated from builder.py: alias precedence, key lookup plan, allowed-key set); vm_compute correspondence on all subsets of candidate keys; independent keymodel oracle",
+            "Proof: C09_keys_partial, K4_precedence, K4_key_plan, K4_allowed_keys, C09_alias_wins, C09_fallback, C09_accepted_covers_reads, C09_extra_exact, C09_ignored (17 theorems, closed) for every class configuration and input dict incl. shadowed/shared aliases and field-less classes; excluded: fields whose resolved alias is the empty string (refuted, known finding).",
+            "Trusted: Coq kernel + vm_compute; py2gallina + the K4 plugin's statement-shape slicer; encoding of Alias/Annotated/metadata/Config.aliases as kernel values; hand-written sequencing in KeyImpl checked against the real from_dict on every run; harness materialiser.",
+            "4 C09"),
+    "C13": ("Coq proof (state-machine invariant of the per-class dialect caches over every hierarchy and history; kernels K2 Dialect.merge, K3 option lookup, K13 Dialect attribute inventory translated from source each run); vm_compute correspondence of cache transitions; twin-class and cross-format oracle",
+            "Proof (partial): C13_isolation, C13_default_unaltered, C13_merge_total (all options bound by class Dialect, re-extracted each run: C13_merge_covers_all_options), C13_merge_strategies, C13_codec_option_uniform proved; 'dialect=D == twin class' proved off two refuted corners (known findings D14, D8b); C13_shared_cache_refuted documents why own-namespace cache creation matters. Cross-format document equality is by exhaustive option-vector sweep over six codecs, not by proof.",
+            "Trusted: Coq kernel + vm_compute (+ coqchk in thorough); hand models DialectCache.step, merge_strategies, call_effective, union_forward compared with /repo every run; py2gallina and the K13 extractor; harness materialiser; format libraries as parsers.",
+            "4 C13"),
+    "C14": ("Coq proof over an executable state-machine model of method installation (stubs, compiled slots, dialect caches, on-demand nested compilation), thread model with arbitrary schedules of GIL-atomic steps; vm_compute correspondence of slot/cache transitions with real cls.__dict__; twin-family history and thread oracle",
+            "Proof (partial): C14_call_state_independent / C14_history_partial (every answering call is independent of history and compilation mode), C14_first_call_terminates (measure 1+pending, after fix D5), C14_lazy_dialect_diverges (pre-fix model), C14_schedules_partial (safety + liveness for n threads, any schedule); the full history statement is refuted in the faithful model (4 known findings). Closed under the global context.",
+            "Trusted: Coq kernel + vm_compute; c14fam.py renderer and stub detector; GIL-atomic step model (pre-emption inside exec only sampled by stress runs); MRO, codecs, discriminators and non-dialect flags covered only by the Python oracle.",
+            "4 C14"),
+    "C15": ("Coq proof over a two-path (mixin dynamic dispatch / codec static dispatch) interpreter model: agreement, compositionality, creation-history frame; vm_compute correspondence with both real paths; entry-point oracle incl. one-shot functions and interleaved codec/subclass creation",
+            "Proof (partial): C15_agree_partial, C15_compositional_{list,dict,tuple,optional,field,wrapper}, C15_unpack_compositional_*, C15_frame_partial / C15_frame_history for all depths on exact-class values (closed); the four ways it fails off that domain are _refuted witnesses and known findings. No agreement theorem for decoding (tie + oracle only).",
+            "Trusted: Coq kernel + vm_compute; c15lib.py materialiser, has-method prediction, exception reduction; CPython primitives modelled; codec holders abstracted.",
+            "4 C15"),
+    "C16": ("Coq proof by induction over all strings (repr/ascii/bytes-repr followed by the string-literal lexer returns the string) + finite splice-site table regenerated from source by an AST taint scan (K10, vm_compute) + vm_compute correspondence of the repr/lexer model with CPython + adversarial oracle on the implementation",
+            "Proof: C16_repr_lex, C16_ascii_lex, C16_repr_bytes_lex for all strings; C16_sites / C16_site_literal: every data splice site of the generator as it is in /repo now is a repr/ascii site in an admissible context (34 rows), hence holds a literal denoting exactly s. Closed under the global context. Enum member names in Literal[...] and the empty alias are known findings.",
+            "Trusted: Coq kernel + vm_compute; PyStrLit model of CPython repr and tokenizer (compared every run); k10_splices.py and its explicit origin rules; before_ok/after_ok look only at the static text around the value.",
+            "4 C16"),
+    "C19": ("Coq proof over a hook-trace model of the generated to_dict/from_dict (writer monad of Pre/Post events, mixin vs codec dispatch, union try-each, context forwarding); vm_compute correspondence against the real hook log; independent traversal oracle",
+            "Proof (partial): C19_trace_partial (trace = pre/post-order traversal, union-free, both paths), C19_mixin_once (exactly once and in order with unions on the mixin path), C19_context, C19_de_trace_partial, C19_de_post_once (any schema, any input); the full statement is refuted by two known findings (codec union double pre hook; context lost for a later union member). Closed under the global context.",
+            "Trusted: Coq kernel + vm_compute; hand-written Hooks.v control-flow model checked on ~1k (quick) / 19.5k (thorough) cases per run; c19lib.py materialiser; CPython attribute lookup, keyword and exception semantics modelled.",
+            "4 C19"),
+    "C04": ("Coq proof by induction over a small (value, type) model composed with assumed library laws (Section hypotheses fmt_law / leaf_law, never axioms); kernel K11 (per-format method names) translated from source each run; vm_compute correspondence against the implementation and the real format libraries; generated-schema oracle over 5 formats x 4 entry-point kinds",
+            "Proof (partial): C04_roundtrip_partial and C04_doc_is_basic / C04_doc_exact for all five formats relative to the assumed laws of the format libraries and stdlib leaf codecs (validated on every generated document); the TOML round trip carries the premise that Optional fields default to None, the full statement is refuted with a witness reproducing on /repo (known finding); C04_method_names_injective over the code translated on every run. Closed under the global context.",
+            "Trusted: Coq kernel + vm_compute (+ coqchk in thorough); fmt_law/leaf_law are hypotheses about third-party libraries (json, orjson, yaml, msgpack, tomli_w/tomllib) validated by sampling; harness materialiser; K11 translator extension; the codec wrapper and all types outside the small grammar are covered by the oracle only.",
+            "4 C04"),
+    "C10": ("Coq proof (general: first hit of a sorted complete enumeration is the unique minimum) over the resolution code translated from /repo on every run (kernel K5: iter_serialization_strategies, get_overridden_(de)serialization_method, the first registry handlers); kernel validation and tagged real classes/codecs by vm_compute; independent lexicographic-minimum oracle",
+            "Proof: C10_precedence (for arbitrary registration tables and type keys the translated functions return exactly the unique minimum of the enabled (field option, field strategy, key, level) slots), C10_empty, C10_pass_through, C10_sym; 'exactly one level applies' is proved off Annotated aliases and refuted for them (two known findings). Closed under the global context.",
+            "Trusted: Coq kernel + vm_compute (+ coqchk in thorough); py2gallina + the K5 plugin (generators, CPS loops) and its PyK_strat primitives (validated each run); hand-modelled NewType / use_annotations re-entry; harness materialiser.",
+            "4 C10"),
+    "C18": ("Coq proof of a label-sharing semantics of the generated packers/unpackers (every mutable container carries a label; by-reference keeps it, copies draw fresh ones) by induction over types/values; vm_compute correspondence of normalised result trees with id()-labelled real results; id-graph + snapshot oracle",
+            "Proof: C18_share (old-labelled parts of a serialization result are exactly the input sub-values at Any/pass_through positions and at collection positions whose origin is in the effective no_copy_collections and whose element packer is the identity), C18_default_fresh, C18_decode_fresh, C18_decode_all_fresh, C18_no_mutation; partial w.r.t. the semantic reading of 'conversion-free' (Optional/Literal elements, C18_share_full_refuted) and refuted for unions under no_copy (3 known findings). Closed under the global context. Real mutation-freedom is checked by the oracle, not proved.",
+            "Trusted: Coq kernel + vm_compute; Share.v as a model of CPython identity (comprehension/.copy()/display build a new object, a bare name evaluates to the same object) and of option lookup / dialect forwarding (effN); harness materialisation and id() labelling; unions, Literal, TypedDict, ChainMap, bytearray are oracle-only.",
+            "4 C18"),
+    "C06": ("Coq proof by induction (soundness of the schema model w.r.t. a Draft 2020-12 validator model) + kernel K6 (on_tuple bounds arithmetic) translated from source each run; four vm_compute correspondences (kernel, schema model vs build_json_schema, jvalid vs the jsonschema package, encoding/domain); direct validator oracle",
+            "Proof (partial): C06_sound_partial (for every type, value, dialect prefix, all_refs mode and fuel of the modelled grammar: the serialized document validates against the generated schema) under ty_ok/env_ok which exclude exactly the seven known findings and fixed tuples with Unpack segments; for those tuples K6_spec / K6_min_le_max / K6_accepts_lengths over the kernel re-translated each run; C06_required_iff_no_default, C06_satisfiable, C06_tz_pattern; refutation witnesses per finding. Closed under the global context.",
+            "Trusted: Coq kernel + vm_compute; the K6 plugin translator; harness emitters (keyword order canonicalised, default/description stripped, union member order from the real typing object); stdlib leaf rendering, tzname, regex semantics modelled; the jsonschema 4.26 Draft202012Validator as the standard validator.",
+            "4 C06"),
+    "C12": ("Coq proofs by induction over define/decode histories of a registry state machine; kernel K12 (iter_all_subclasses, variant enumeration) translated from source each run; vm_compute correspondence with real dynamically created class hierarchies; direct oracle",
+            "Proof: C12_registry_invariant, C12_registry (a field-discriminated decode returns exactly the eligible class defined so far that carries the tag, SuitableVariantNotFound iff none, MissingDiscriminator iff the key is absent), C12_history_independent, C12_eligible_exact, C12_nofield, C12_code_variants (over the kernel re-translated each run), under uniqueness of the decoded tag and no self-dispatching carrier; known finding nofield-inherited-unpacker refuted in Coq. Closed under the global context.",
+            "Trusted: Coq kernel + vm_compute (coqchk in thorough); the K12 translator; model of __subclasses__ order, dict semantics and dataclass acceptance (compared with /repo on every run); harness rendering of histories.",
+            "4 C12"),
+    "C20": ("Coq proof (state-passing model of schema building + generic invariant over build sequences; totality by rank, divergence for every fuel on cyclic tables) + kernel K9 (context defaults, ref prefix, reference/registration key) translated from source each run; vm_compute correspondence with build_json_schema; metaschema / refs / round-trip oracle",
+            "Proof (partial): C20_refs_closed (every $ref of every output and definition names a key of the final definitions, over any sequence of builds on one context), C20_wf (metaschema-relevant well-formedness), C20_total on ranked (acyclic) class tables, C20_cyclic_diverges (known finding D10), C20_K9_prefix / C20_K9_ref_names_key over the kernel re-translated each run. The JSONSchema.from_dict/to_dict round trip and everything outside the model grammar are checked on the real code by the oracle only; 10 known findings. Closed under the global context.",
+            "Trusted: Coq kernel + vm_compute; the K9 plugin with its structure-checked slices; the model grammar; the jsonschema package (check_schema); the generator's known-finding predicates.",
+            "4 C20"),
 }
 
 ALL = [f"C{i:02d}" for i in range(1, 21)]
